@@ -332,9 +332,7 @@ def remove_unused_imports(source: str) -> str:
     return source
 
 
-def fix_too_many_blank_lines(source: str) -> str:
-    original_source = source
-
+def _limit_blank_lines(source: str) -> str:
     # At module level, remove all above 2 blank lines
     source = re.sub(r"(\n\s*){3,}\n", "\n" * 3, source)
 
@@ -343,6 +341,15 @@ def fix_too_many_blank_lines(source: str) -> str:
 
     # At non-module (any indented) level, remove all newlines above 1, preserve indent
     source = re.sub(r"(\n\s*){2,}(\n\s+)(?=[^\n\s])", r"\n\g<2>", source)
+
+    return source
+
+
+def fix_too_many_blank_lines(source: str) -> str:
+    original_source = source
+
+    # Blank lines in a string are part of its value
+    source = formatting.outside_strings(_limit_blank_lines, source)
 
     if core.is_valid_python(original_source) and not core.is_valid_python(source):
         # For example a backslash continuation onto a blank line at the end of the file
